@@ -1,5 +1,5 @@
 CONSTANTS
-  Fams = {"options", "ctype", "cond", "auth", "cookie", "url", "range", "date"}
+  Fams = {"options", "ctype", "cond", "auth", "cookie", "url", "range", "date", "body"}
   FullLen = 3
   MaxLen = 4
   CoreToks = 14
